@@ -150,12 +150,19 @@ theorem holdsHb_model (s n m k : Nat) :
     · have e := hd.2
       right; first | omega | exact ⟨by omega, by omega⟩ | exact ⟨decide_eq_true (by omega), decide_eq_true (by omega)⟩
 
-/-- the monitor is not vacuous: a signing window shorter than one retry loop, a deadline inside
-the safety margin and an early start are rejected. -/
-example : holdsTx .redemption 1000 1600 1000 1300 300 900 60 = true := by decide
-example : holdsTx .redemption 1000 1600 1000 1200 300 900 60 = false := by decide  -- 200 < 205
-example : holdsTx .redemption 1000 1600 1000 1400 300 900 60 = false := by decide  -- margin 200
-example : holdsTx .redemption 1000 1600 999 1300 300 900 60 = false := by decide   -- early start
-example : holdsTx .redemption 1000 1600 1000 1300 300 3600 60 = false := by decide -- broadcast too long
+/-- the monitor is not vacuous (stated relative to the generated constants so that a harmless
+constant change keeps them true): the model's own deadlines are accepted; a signing window one
+block shorter than a retry loop, a deadline one block inside the safety margin, a start before
+the action start and a broadcast longer than the margin are rejected. -/
+example : holdsTx .redemption 1000 (expiry .redemption 1000) (signStart .redemption 1000)
+    (signEnd .redemption 1000) (margin .redemption) (bcastSeconds .redemption) (delaySeconds .redemption) = true := by decide
+example : holdsTx .redemption 1000 (expiry .redemption 1000) 1000 (1000 + oneLoop - 1)
+    (margin .redemption) (bcastSeconds .redemption) (delaySeconds .redemption) = false := by decide
+example : holdsTx .redemption 1000 (expiry .redemption 1000) 1000 (expiry .redemption 1000 - margin .redemption + 1)
+    (margin .redemption) (bcastSeconds .redemption) (delaySeconds .redemption) = false := by decide
+example : holdsTx .redemption 1000 (expiry .redemption 1000) 999 (signEnd .redemption 1000)
+    (margin .redemption) (bcastSeconds .redemption) (delaySeconds .redemption) = false := by decide
+example : holdsTx .redemption 1000 (expiry .redemption 1000) 1000 (signEnd .redemption 1000)
+    (margin .redemption) (margin .redemption * blockSeconds + 1) 0 = false := by decide
 
 end KeepVerif.C46
